@@ -55,7 +55,7 @@ def worker(args):
         out["contract"] = contract_data(c)
         out["kind"] = c.kind
         I = Interp(L, cs)
-        I.spec_builtins = {"fold", "implies", "old", "pre", "events", "same_object"}
+        I.spec_builtins = {"fold", "implies", "old", "pre", "events", "same_object", "final"}
         ex = Explorer()
         try:
             paths = ex.run(lambda p: cs.verify_path(I, c, p))
